@@ -176,7 +176,12 @@ def program(draw, weights=None, min_steps=8, max_steps=30, prefixes=PREFIXES, se
                 slot, name = draw(st.sampled_from(["x1", "h1", "c1"])), draw(st.sampled_from(other_names))
             steps.append({"op": "DELETE", "fe": fe, "afe": afe, "coll": slot, "name": name, "cond": [c for c in maybe_cond() if c["hdr"] == "If-Match"]})
         elif op == "DELETE-coll":
-            steps.append({"op": "DELETE", "fe": fe, "afe": afe, "coll": draw(st.sampled_from(["c2", "n1", "x1", "c1", "a1", "b1"])), "name": None, "slash": draw(st.booleans())})
+            dc = {"op": "DELETE", "fe": fe, "afe": afe, "coll": draw(st.sampled_from(["c2", "n1", "x1", "c1", "a1", "b1"])), "name": None, "slash": draw(st.booleans())}
+            if cond_rate and draw(st.integers(0, 3)) > 0:
+                c = draw(cond_spec())
+                c["hdr"] = "If-Match"
+                dc["cond"] = [c]
+            steps.append(dc)
         elif op == "MKCOL":
             kind = draw(st.sampled_from(["plain", "ext-calendar", "ext-addressbook", "ext-plain", "mkcalendar", "mkcalendar"]))
             props = []
